@@ -49,47 +49,19 @@ theorem cached_verdict_eq_uncached {k : Content} {m : Nat} {c : VCache} (hs : So
   | none => rfl
   | some e => simp only []; rw [full_of_ok_true (hs w e hp) tr]
 
-theorem peek_cons_filter (c : VCache) (w w' : Nat) (e : Completed) :
-    VCache.peek ((w, e) :: c.filter (fun x => x.1 != w)) w' =
-      if w' = w then some e else c.peek w' := by
-  unfold VCache.peek
-  by_cases h : w' = w
-  · subst h; simp
-  · simp only [List.find?_cons, h, if_false]
-    have hne : (w == w') = false := by simpa using fun h' => h h'.symm
-    simp only [hne]
-    congr 1
-    induction c with
-    | nil => rfl
-    | cons x xs ih =>
-      simp only [List.filter_cons]
-      by_cases hx : x.1 = w
-      · have : (x.1 == w') = false := by simpa [hx] using fun h' => h h'.symm
-        simp [hx, List.find?_cons, this, ih]
-      · simp only [bne_iff_ne, ne_eq, hx, not_false_eq_true, decide_true, if_true, List.find?_cons]
-        split
-        · rfl
-        · exact ih
-
 theorem peek_filter (c : VCache) (w w' : Nat) :
     VCache.peek (c.filter (fun x => x.1 != w)) w' = if w' = w then none else c.peek w' := by
   unfold VCache.peek
   induction c with
   | nil => simp
-  | cons x xs ih =>
-    simp only [List.filter_cons]
-    by_cases hx : x.1 = w
-    · by_cases h : w' = w
-      · simp_all
-      · have : (x.1 == w') = false := by simpa [hx] using fun h' => h h'.symm
-        simp_all [List.find?_cons]
-    · simp only [bne_iff_ne, ne_eq, hx, not_false_eq_true, decide_true, if_true, List.find?_cons]
-      by_cases hx' : x.1 = w'
-      · have : w' ≠ w := fun h => hx (hx'.trans h)
-        simp [hx', this]
-      · have : (x.1 == w') = false := by simpa using hx'
-        simp only [this]
-        exact ih
+  | cons x xs ih => grind
+
+theorem peek_cons_filter (c : VCache) (w w' : Nat) (e : Completed) :
+    VCache.peek ((w, e) :: c.filter (fun x => x.1 != w)) w' =
+      if w' = w then some e else c.peek w' := by
+  have h := peek_filter c w w'
+  unfold VCache.peek at h ⊢
+  grind
 
 /-- `Sound` is preserved by every verification (the result is cached) and every eviction. -/
 theorem sound_preserved {k : Content} {m : Nat} {c : VCache} (hs : Sound k m c) (op : VOp) :
@@ -289,7 +261,7 @@ theorem guarded_run_eq_cold {ν : Type} {content : Nat → ν} {s : Cached ν} (
 
 /-- the empty store is coherent -/
 theorem coherent_empty {ν : Type} (content : Nat → ν) : Coherent content ⟨fun _ => none, []⟩ :=
-  ⟨by intro k v h; cases h, by intro k v h; cases h⟩
+  ⟨fun k v h => by simp at h, fun k v h => by simp at h⟩
 
 example : runGuarded (⟨fun _ => none, []⟩ : Cached Nat) [.write 1 10, .read 1, .delete 1, .read 1, .write 1 10, .read 1, .evict 1, .read 2]
     = [none, some (some 10), none, some none, none, some (some 10), none, some none] := by decide
